@@ -73,6 +73,13 @@ func (cl *ClientLimiter) AllowN(addr netip.Addr, now time.Time, n int) bool {
 			e.m.Unlock()
 			continue
 		}
+		// now was taken by the caller before it got this lock. A caller that
+		// was delayed in between brings an older now than the previous one.
+		// Never let the bucket's clock go backwards: rate.Limiter would credit
+		// the interval in between once more.
+		if now.Before(e.lastSeen) {
+			now = e.lastSeen
+		}
 		e.lastSeen = now
 		ok := e.l.AllowN(now, n)
 		e.m.Unlock()
